@@ -34,7 +34,9 @@ ASSUMPTIONS = [
     "result 0 is accepted iff |r| < 2^-128; a non-zero result for |r| < 2^-128 is accepted if it is "
     "within the error bound (i.e. r rounds to +-2^-128)",
     "0/0: Division by zero with either signed maximum",
-    "soft mode is exercised through Session.evaluate in direct mode only (console attached)",
+    "soft mode (message on the console + signed maximum) is exercised through Session.evaluate in "
+    "direct mode and, for the first 40 error cases of each bulk shard, through the values API with "
+    "the console attached (message read back from the screen)",
     "double products with exact magnitude in [2^-128, 2^-96) returning 0 are reported under the "
     "separate key mul.double.underflow-band (defect found by reading, fixed in /repo by 9479e0ab; "
     "the key and its regression case stay), everything else about them is checked",
@@ -75,7 +77,7 @@ def check_case(case):
         res.label('division-by-zero')
         ok_max = [SMAX[(n, x < 0)]] if x != 0 else [SMAX[(n, False)], SMAX[(n, True)]]
         if obs[0] == 'err':
-            if obs[1] != 11 or route == 'eval':
+            if obs[1] != 11 or route in ('eval', 'api-soft'):
                 res.fail(key + 'divzero', '%s -> error %r, expected Division by zero' % (where, obs[1]))
         elif obs[0] == 'soft':
             if obs[1] != 11 or obs[2] not in ok_max:
@@ -102,7 +104,7 @@ def check_case(case):
             res.fail(key + 'spurious-error', '%s -> error %d, exact result %r' % (where, obs[1], float(r)))
         elif obs[0] == 'soft' and obs[2] != SMAX[(n, r < 0)]:
             res.fail(key + 'soft-overflow-value', '%s -> soft overflow value %s' % (where, M.hx(obs[2])))
-        elif obs[0] == 'err' and route == 'eval':
+        elif obs[0] == 'err' and route in ('eval', 'api-soft'):
             res.fail(key + 'soft-overflow-value', '%s -> hard error in direct mode' % where)
         return res
     ret = obs[1]
@@ -134,6 +136,8 @@ def check_case(case):
         res.fail(key + 'bound', '%s -> %s, error %.4f ulp >= 1' % (where, M.hx(ret), float(e / u)))
     if e * 2 > u:
         res.label('error-above-half-ulp')
+    if rep and e != 0:
+        res.label('representable-result-missed')     # allowed by the bound, e.g. 1048576!-.0625
     return res
 
 
@@ -170,6 +174,8 @@ def fast_verdict(op, a, b, n, obs, err):
             return 'BAND', nt, lab
         return 'underflow', nt, lab
     do = M.dy(obs)
+    if lab == 'exact-representable' and M.err_cmp(do, r, 0) > 0:
+        lab = 'representable-result-missed'
     if op in '+-':
         bad = M.err_cmp(do, r, 2) > 0
     else:
@@ -180,55 +186,69 @@ def fast_verdict(op, a, b, n, obs, err):
 def run_pairs(n):
     def run(shard, nshards, tier, seed, ev):
         rng = random.Random(seed)
-        count = (8000 if tier == 'quick' else 300000)
+        count = (16000 if tier == 'quick' else 500000)
         A = M.api()
         mk, BErr, binop = A.mk, A.BASICError, A.binop
         tname = M.TNAME[n]
         seen = set()
         labels = {}
         cnt = nt = 0
+        soft_left = 40
         for i in range(count):
+            if (i & 255) == 0:
+                M.arm(180.0)
             for op in '+-*/':
-                a, b, cls = M.gen_pair(rng, n, op)
-                cnt += 1
-                try:
-                    obs = bytes(binop[op](mk(a), mk(b)).to_bytes())
-                    err = None
-                except BErr as e:
-                    obs, err = None, e.err
-                except Exception as e:       # noqa: B902
-                    ev.fail(M.frame_key(e), {'u': 'arith', 'op': op, 'a': M.lat(a), 'b': M.lat(b),
-                                             'route': 'api'}, '%s %s %s' % (M.hx(a), op, M.hx(b)))
-                    continue
-                bad, isnt, lab = fast_verdict(op, a, b, n, obs, err)
-                k = '%s.%s.%s' % (OPNAME[op], tname, lab)
-                labels[k] = labels.get(k, 0) + 1
-                k = 'class.' + cls
-                labels[k] = labels.get(k, 0) + 1
-                if err == 6:
-                    labels['overflow.' + tname] = labels.get('overflow.' + tname, 0) + 1
-                if isnt:
-                    h = (op, a, b)
-                    if h not in seen and len(seen) < 2000000:
-                        seen.add(h)
-                        nt += 1
-                case = None
-                if bad:
-                    case = {'u': 'arith', 'op': op, 'a': M.lat(a), 'b': M.lat(b), 'route': 'api'}
-                    if bad == 'BAND':
-                        ev.excluded += 1
-                        ev.fail('mul.double.underflow-band', case, '%s * %s -> 0' % (M.hx(a), M.hx(b)))
-                    else:
-                        ev.fail('%s.%s.%s' % (OPNAME[op], tname, bad), case,
-                                '%s %s %s -> %s err=%r' % (M.hx(a), op, M.hx(b), obs and M.hx(obs), err))
-                if (cnt % 499) == 0:
-                    case = case or {'u': 'arith', 'op': op, 'a': M.lat(a), 'b': M.lat(b), 'route': 'api'}
-                    slow = check_case(case)
-                    if bool(slow.fails) != bool(bad):
-                        ev.harness_errors.append('reference models disagree on %r: fast=%r slow=%r' % (
-                            case, bad, slow.fails))
-                    if isnt:
-                        ev.sample(case)
+              try:
+                  a, b, cls = M.gen_pair(rng, n, op)
+                  cnt += 1
+                  try:
+                      obs = bytes(binop[op](mk(a), mk(b)).to_bytes())
+                      err = None
+                  except BErr as e:
+                      obs, err = None, e.err
+                  except Exception as e:       # noqa: B902
+                      ev.fail(M.frame_key(e), {'u': 'arith', 'op': op, 'a': M.lat(a), 'b': M.lat(b),
+                                               'route': 'api'}, '%s %s %s' % (M.hx(a), op, M.hx(b)))
+                      continue
+                  bad, isnt, lab = fast_verdict(op, a, b, n, obs, err)
+                  if err is not None and soft_left > 0:
+                      # the same operation with the console attached: message + signed maximum
+                      soft_left -= 1
+                      scase = {'u': 'arith', 'op': op, 'a': M.lat(a), 'b': M.lat(b), 'route': 'api-soft'}
+                      ev.record(scase, check_case(scase))
+                  k = '%s.%s.%s' % (OPNAME[op], tname, lab)
+                  labels[k] = labels.get(k, 0) + 1
+                  k = 'class.' + cls
+                  labels[k] = labels.get(k, 0) + 1
+                  if err == 6:
+                      labels['overflow.' + tname] = labels.get('overflow.' + tname, 0) + 1
+                  if isnt:
+                      h = (op, a, b)
+                      if h not in seen and len(seen) < 1000000:
+                          seen.add(h)
+                          nt += 1
+                  case = None
+                  if bad:
+                      case = {'u': 'arith', 'op': op, 'a': M.lat(a), 'b': M.lat(b), 'route': 'api'}
+                      if bad == 'BAND':
+                          ev.excluded += 1
+                          ev.fail('mul.double.underflow-band', case, '%s * %s -> 0' % (M.hx(a), M.hx(b)))
+                      else:
+                          ev.fail('%s.%s.%s' % (OPNAME[op], tname, bad), case,
+                                  '%s %s %s -> %s err=%r' % (M.hx(a), op, M.hx(b), obs and M.hx(obs), err))
+                  if (cnt % 499) == 0:
+                      case = case or {'u': 'arith', 'op': op, 'a': M.lat(a), 'b': M.lat(b), 'route': 'api'}
+                      slow = check_case(case)
+                      if bool(slow.fails) != bool(bad):
+                          ev.harness_errors.append('reference models disagree on %r: fast=%r slow=%r' % (
+                              case, bad, slow.fails))
+                      if isnt:
+                          ev.sample(case)
+              except M.Hang:
+                ev.inconclusive += 1
+                labels['wall-limit'] = labels.get('wall-limit', 0) + 1
+                M.arm(180.0)
+        M.disarm()
         ev.count(cnt, nontrivial=nt)
         for k, v in labels.items():
             ev.labels[k] += v
@@ -277,6 +297,19 @@ REGRESSIONS = [
     _a('+', 'ffff7fff', 'ffff7fe7'),                              # MAX + half ulp
     _a('-', '00000001', '01000001'),                              # smallest difference underflows
     _a('+', '00000081', '00008081'),                              # exact cancellation
+    # 1048576!-.0625 returns 1048576 although 1048575.9375 is representable: 0.5 ulp, inside the bound
+    _a('-', '00000095', '0000007d', 'eval'),
 ]
 
-KILLS = []
+KILLS = [
+    'seeded/C04 (0/0 returns 0 without Division by zero) => div.single.divzero',
+    'numbers.Float.imul: revert 9479e0ab (`lexp < -31` for doubles too) => mul.double.underflow-band (12790 hits/quick)',
+    'numbers.Float.imul: `lexp <= -(self._shift + 8)` (flush one binade more) => mul.double.underflow-band',
+    'numbers.Float._normalise: truncation instead of round-half-even => div/sub/mul .bound (single and double)',
+    'numbers.Float._check_limits: `exp >= 255` => *.spurious-error (Overflow for exact results below the maximum)',
+    'numbers.Float._normalise: `exp <= 1` => add/sub/div.single.underflow',
+    'numbers.Float._check_limits: signed maximum swapped => *.soft-overflow-value (api-soft route of the bulk units, and arith-eval)',
+    'numbers.Float.idiv: signed maximum of Division by zero swapped => div.*.divzero (arith-eval)',
+    'SURVIVES (inside the stated bound): _add_den sticky bit `man |= 1` removed - worst error stays 0.5+2^-8 ulp < 2 ulp',
+    'SURVIVES (inside the stated bound): imul rounding-quirk mask 0xfe -> 0xf0 - error stays below 1 ulp',
+]
